@@ -27,7 +27,7 @@ Inductive effect (s : store) (th : thread) (s' : store) (th' : thread) : Prop :=
            owns th' = owns th -> is_okst th' = is_okst th ->
            (is_okst th = true -> t_st th' = t_st th) -> effect s th s' th'
 | EStore mb : t_st th = SStore mb -> links s' = links s -> next_msg s' = next_msg s + 1 ->
-           t_st th' = SRead mb (next_msg s) -> effect s th s' th'
+           t_st th' = SAlloc mb (next_msg s) -> effect s th s' th'
 | EInsert mb m u : t_st th = SInsert mb m u ->
            insert_link s m mb u (prog_flags (t_prog th)) = Some s' ->
            t_st th' = SOk mb m u -> effect s th s' th'
